@@ -9,7 +9,7 @@ open RLV.Core
 theorem checkRange_spec (l : Line) (b e : Int) :
     let r := checkRange l b e
     (r.2.2 = false → r.1 = -1 ∧ r.2.1 = -1) ∧
-    (r.2.2 = true → 0 ≤ r.1 ∧ r.1 ≤ len l ∧ (r.2.1 = -1 ∨ (r.1 ≤ r.2.1 ∧ r.2.1 ≤ len l)) ∧
+    (r.2.2 = true → len l ≠ 0 ∧ 0 ≤ r.1 ∧ r.1 ≤ len l ∧ (r.2.1 = -1 ∨ (r.1 ≤ r.2.1 ∧ r.2.1 ≤ len l)) ∧
       (0 ≤ b → 0 ≤ e → r.2.1 ≠ -1)) := by
   have hl : 0 ≤ len l := by unfold len; omega
   unfold checkRange
@@ -17,6 +17,27 @@ theorem checkRange_spec (l : Line) (b e : Int) :
   repeat' split
   all_goals simp_all
   all_goals omega
+
+/-- `checkRange` leaves a range it has produced as it is -/
+theorem checkRange_idem (l : Line) (b e x y : Int) (h : checkRange l b e = (x, y, true)) :
+    checkRange l x y = (x, y, true) := by
+  have hs := checkRange_spec l b e
+  simp only [h] at hs
+  obtain ⟨hne, h0, h1, h2, _⟩ := hs.2 trivial
+  unfold checkRange
+  have c1 : ¬ (x < 0 ∧ y < 0) := by omega
+  have c2 : ¬ (x > len l ∧ y > len l) := by omega
+  have c3 : ¬ x > len l := by omega
+  have c4 : ¬ x < 0 := by omega
+  simp only [hne, c1, c2, c3, c4, if_false]
+  rcases h2 with h2 | h2
+  · subst h2
+    have c5 : ¬ (-1 : Int) > len l := by omega
+    simp [c5]
+  · have c5 : ¬ y > len l := by omega
+    have c6 : ¬ y < 0 := by omega
+    have c7 : ¬ x > y := by omega
+    simp [c5, c6, c7]
 
 theorem scanBack_spec (l : Line) : ∀ (f : Nat) (b : Int), -1 ≤ b → b < len l →
     ∃ r, scanBack l f b = .ok r ∧ -1 ≤ r ∧ r ≤ b + 1 := by
@@ -85,62 +106,65 @@ theorem selectToCursor_spec (l : Line) (s : S) (cpos b : Int) (hc0 : 0 ≤ cpos)
   · simp only [hlt, if_false]
     exact selectOrdered_spec l s b cpos hb0 hb1 hc0
 
+theorem posFrom_spec (l : Line) (s : S) (cur : Cur) (b1 e1 : Int) (hb0 : 0 ≤ b1) (hb1 : b1 ≤ len l)
+    (he : e1 = -1 ∨ (b1 ≤ e1 ∧ e1 ≤ len l)) :
+    ∃ r, posFrom l s cur b1 e1 = .ok r ∧
+      ((r.1 = -1 ∧ r.2 = -1) ∨ (0 ≤ r.1 ∧ r.1 ≤ r.2 ∧ r.2 ≤ len l)) := by
+  obtain ⟨hc0, hc1, _⟩ := checkAppend_range l cur
+  -- the range handed to the final check has non-negative ends
+  have key : ∀ (b e : Int), 0 ≤ b → 0 ≤ e →
+      ∃ r, (if (!(checkRange l b e).2.2) = true then (Except.ok ((-1 : Int), (-1 : Int)) : G _)
+            else Except.ok ((checkRange l b e).1, (checkRange l b e).2.1)) = .ok r ∧
+        ((r.1 = -1 ∧ r.2 = -1) ∨ (0 ≤ r.1 ∧ r.1 ≤ r.2 ∧ r.2 ≤ len l)) := by
+    intro b e hb he
+    have h2 := checkRange_spec l b e
+    simp only at h2
+    generalize checkRange l b e = x at h2
+    obtain ⟨xb, xe, xok⟩ := x
+    cases xok with
+    | false => exact ⟨_, rfl, Or.inl ⟨rfl, rfl⟩⟩
+    | true =>
+      have h3 := h2.2 rfl
+      simp only at h3
+      obtain ⟨_, g0, g1, g2, g3⟩ := h3
+      have hne := g3 hb he
+      refine ⟨_, rfl, Or.inr ?_⟩
+      rcases g2 with g2 | g2
+      · exact absurd g2 hne
+      · exact ⟨g0, g2.1, g2.2⟩
+  unfold posFrom
+  simp only [bind, Except.bind, pure, Except.pure]
+  by_cases hpend : e1 = -1
+  · obtain ⟨r, hr, hr0, hr1⟩ := selectToCursor_spec l s (checkAppend l cur).pos b1 hc0 hc1 hb0 hb1
+    simp only [hpend, if_true, hr]
+    exact key r.1 (if s.visual = true then r.2 + 1 else r.2) hr0 (by split <;> omega)
+  · simp only [hpend, if_false]
+    have he0 : 0 ≤ e1 := by
+      rcases he with h | h
+      · exact absurd h hpend
+      · omega
+    exact key b1 (if s.visual = true then e1 + 1 else e1) hb0 (by split <;> omega)
+
 /-- C06: `Selection.Pos()` as a function of ANY internal field values returns a range inside the
 buffer, or `(-1, -1)`. -/
 theorem pos_spec (l : Line) (s : S) (cur : Cur) :
     ∃ r, pos l s cur = .ok r ∧
       ((r.1 = -1 ∧ r.2.1 = -1) ∨ (0 ≤ r.1 ∧ r.1 ≤ r.2.1 ∧ r.2.1 ≤ len l)) := by
   unfold pos
-  simp only [bind, Except.bind, pure, Except.pure]
   split
   · exact ⟨_, rfl, Or.inl ⟨rfl, rfl⟩⟩
   · have hcr := checkRange_spec l s.bpos s.epos
-    simp only at hcr
-    generalize hr1 : checkRange l s.bpos s.epos = r1 at hcr
-    obtain ⟨b1, e1, ok1⟩ := r1
-    simp only
-    cases ok1 with
+    simp only at hcr ⊢
+    cases hok : (checkRange l s.bpos s.epos).2.2 with
     | false =>
-      have := hcr.1 rfl
-      exact ⟨_, rfl, Or.inl this⟩
+      simp only [hok, Bool.not_false, if_true]
+      exact ⟨_, rfl, Or.inl (hcr.1 hok)⟩
     | true =>
-      have hcr2 := hcr.2 rfl
-      simp only at hcr2
-      obtain ⟨hb0, hb1, he, _⟩ := hcr2
-      simp only [Bool.not_true, Bool.false_eq_true, if_false]
-      obtain ⟨hc0, hc1, _⟩ := checkAppend_range l cur
-      -- the range handed to the final check has non-negative ends
-      have key : ∀ (s' : S) (b e : Int), 0 ≤ b → 0 ≤ e →
-          ∃ r, (if (!(checkRange l b e).2.2) = true then (Except.ok ((-1 : Int), (-1 : Int), s') : G _)
-                else Except.ok ((checkRange l b e).1, (checkRange l b e).2.1, s')) = .ok r ∧
-            ((r.1 = -1 ∧ r.2.1 = -1) ∨ (0 ≤ r.1 ∧ r.1 ≤ r.2.1 ∧ r.2.1 ≤ len l)) := by
-        intro s' b e hb he
-        have h2 := checkRange_spec l b e
-        simp only at h2
-        generalize checkRange l b e = x at h2
-        obtain ⟨xb, xe, xok⟩ := x
-        cases xok with
-        | false => exact ⟨_, rfl, Or.inl ⟨rfl, rfl⟩⟩
-        | true =>
-          have h3 := h2.2 rfl
-          simp only at h3
-          obtain ⟨g0, g1, g2, g3⟩ := h3
-          have hne := g3 hb he
-          refine ⟨_, rfl, Or.inr ?_⟩
-          rcases g2 with g2 | g2
-          · exact absurd g2 hne
-          · exact ⟨g0, g2.1, g2.2⟩
-      by_cases hpend : e1 = -1
-      · subst hpend
-        simp only [if_true]
-        obtain ⟨r, hr, hr0, hr1⟩ := selectToCursor_spec l { s with bpos := b1, epos := -1 } (checkAppend l cur).pos b1 hc0 hc1 hb0 hb1
-        simp only [hr]
-        exact key _ r.1 (if s.visual = true then r.2 + 1 else r.2) hr0 (by split <;> omega)
-      · simp only [hpend, if_false]
-        have he0 : 0 ≤ e1 := by
-          rcases he with h | h
-          · exact absurd h hpend
-          · omega
-        exact key _ b1 (if s.visual = true then e1 + 1 else e1) hb0 (by split <;> omega)
+      obtain ⟨_, hb0, hb1, he, _⟩ := hcr.2 hok
+      simp only [hok, Bool.not_true, Bool.false_eq_true, if_false]
+      obtain ⟨r, hr, hrr⟩ := posFrom_spec l { s with bpos := (checkRange l s.bpos s.epos).1, epos := (checkRange l s.bpos s.epos).2.1 }
+        cur _ _ hb0 hb1 he
+      rw [hr]
+      exact ⟨_, rfl, hrr⟩
 
 end RLV.Sel
